@@ -154,6 +154,31 @@ def deterministic_oracles(ctx, rng):
         found += 1
         ctx.fail_input('gumbel.sample', {'theta': 1.0, 'seed': seed}, f'{vc.exc_kind(e)}: {e}', 'sample works at tau = 0',
                        'gumbel.sample:raises')
+    # (iii) tiny batches: sample(1) / sample(2) under many seeds; every row must invert the recorded draws
+    for fam in B.FAMS:
+        for th in B.theta_grid(fam)[-2:]:
+            if fam == 'gumbel' and th > 3:
+                th = 3.0
+            cobj = B.make(fam, th, B.tau_of(fam, th))
+            for seed in range(40):
+                n = 1 + (seed % 2)
+                cobj.set_random_state(seed)
+                rs = np.random.RandomState(seed)
+                v, cc = rs.uniform(0, 1, n), rs.uniform(0, 1, n)
+                try:
+                    with np.errstate(all='ignore'):
+                        out = np.asarray(cobj.sample(n), dtype=float)
+                        res = np.asarray(cobj.partial_derivative(np.column_stack((out[:, 0], v))), dtype=float) - cc
+                except Exception:  # noqa  (root below the Brent bracket: recorded C08 finding)
+                    continue
+                checked += 1
+                if not (np.array_equal(out[:, 1], v) and np.all(np.abs(res) <= 1e-7)):
+                    found += 1
+                    ctx.fail_input(f'{fam}.sample', {'theta': th, 'seed': seed, 'n': n},
+                                   {'rows': out.tolist(), 'draws_v': v.tolist(), 'draws_c': cc.tolist(), 'h(u,v)-c': res.tolist()},
+                                   'each row is (u, v) with v the first draw and partial_derivative(u, v) = second draw',
+                                   f'{fam}.sample:row-not-conditional-inverse')
+                    break
     # (ii) history: fit, sample, re-fit on other data, sample  ==  a fresh model fitted on the second data
     for fam in B.FAMS:
         taus = [0.25, 0.6] if fam != 'frank' else [-0.5, 0.45]
